@@ -40,3 +40,18 @@ Check (C03_dgram_socket_set_egress_returns :
   exists e' r n, poll_loop2 E sock (dg_dispatch E ev decide) pre fuel e ss = Some (e', r, n) /\
                  (n + total2 sock dg_mu r <= total2 sock dg_mu ss)%nat /\
                  length r = length ss /\ Forall sock_wf r).
+
+Check (C03_egress_loop_mixed_set_returns :
+  forall (E A B : Type) (dA : E -> A -> E * A * dres) (dB : E -> B -> E * B * dres)
+         (InvA : A -> Prop) (InvB : B -> Prop) (muA : A -> nat) (muB : B -> nat),
+  (forall e s e' s' r, InvA s -> dA e s = (e', s', r) -> InvA s') ->
+  (forall e s e' s', InvA s -> dA e s = (e', s', RSent) -> (muA s' < muA s)%nat) ->
+  (forall e s e' s' r, InvA s -> dA e s = (e', s', r) -> r <> RSent -> (muA s' <= muA s)%nat) ->
+  (forall e s e' s' r, InvB s -> dB e s = (e', s', r) -> InvB s') ->
+  (forall e s e' s', InvB s -> dB e s = (e', s', RSent) -> (muB s' < muB s)%nat) ->
+  (forall e s e' s' r, InvB s -> dB e s = (e', s', r) -> r <> RSent -> (muB s' <= muB s)%nat) ->
+  forall pre fuel e ss,
+  Forall (sum_inv A B InvA InvB) ss -> (total2 (A + B) (sum_mu A B muA muB) ss < fuel)%nat ->
+  exists e' r n, poll_loop2 E (A + B) (sum_dispatch E A B dA dB) pre fuel e ss = Some (e', r, n) /\
+                 (n + total2 (A + B) (sum_mu A B muA muB) r <= total2 (A + B) (sum_mu A B muA muB) ss)%nat /\
+                 length r = length ss /\ Forall (sum_inv A B InvA InvB) r).
